@@ -2968,7 +2968,15 @@ namespace Clipper2Lib {
       split->recursive_split = outrec; // prevent infinite loops
 
       if (split->splits && CheckSplitOwner(outrec, split->splits))
+      {
+        // a contour split off split is not always inside split
+        if (split != outrec->owner && CheckBounds(split) &&
+          IsValidOwner(outrec, split) &&
+          outrec->owner->bounds.Contains(split->bounds) &&
+          split->bounds.Contains(outrec->bounds) &&
+          Path1InsidePath2(outrec->pts, split->pts)) outrec->owner = split;
         return true;
+      }
       else if (CheckBounds(split) &&
         split->bounds.Contains(outrec->bounds) &&
         Path1InsidePath2(outrec->pts, split->pts))
@@ -2979,9 +2987,12 @@ namespace Clipper2Lib {
           // split that passes through outrec is wrong there: bypass
           // outrec in that chain rather than reject split
           if (split->bounds == outrec->bounds) continue;
-          OutRec* tmp = split;
-          while (tmp->owner != outrec) tmp = tmp->owner;
-          tmp->owner = outrec->owner;
+          // (at the last real outrec before it: those without
+          // points stand for the outrec they were merged into)
+          OutRec* last = split;
+          for (OutRec* tmp = split; tmp != outrec; tmp = tmp->owner)
+            if (tmp->pts) last = tmp;
+          last->owner = outrec->owner;
         }
         outrec->owner = split; //found in split
         return true;
@@ -3002,7 +3013,19 @@ namespace Clipper2Lib {
 
     while (outrec->owner)
     {
-      if (outrec->owner->splits && CheckSplitOwner(outrec, outrec->owner->splits)) break;
+      if (outrec->owner->splits)
+      {
+        OutRec* owner = outrec->owner;
+        if (CheckSplitOwner(outrec, owner->splits))
+        {
+          // a contour split off owner is not always inside owner
+          if (owner->pts && CheckBounds(owner) && owner != outrec->owner &&
+            outrec->owner->bounds.Contains(owner->bounds) &&
+            owner->bounds.Contains(outrec->bounds) &&
+            Path1InsidePath2(outrec->pts, owner->pts)) outrec->owner = owner;
+          break;
+        }
+      }
       if (outrec->owner->pts && CheckBounds(outrec->owner) &&
         outrec->owner->bounds.Contains(outrec->bounds) &&
         Path1InsidePath2(outrec->pts, outrec->owner->pts)) break;
